@@ -32,6 +32,11 @@ the first / by the second} x {session, region handler} x take
 PacketAck, and the handler's subscriber count must be back at its baseline (clauses subscriber-leak,
 next-datagram-forwarded, no-proxy-ack-for-forwarded; for a cancelled wait_for future: waitfor-cancel-leak).
 
+Hot-reload family: a real addon script in a temporary directory (plain / calling AddonManager.hot_reload on a dependency), loaded
+through AddonManager.init; {nothing edited, dependency edited, script edited, both} x direction x reliability; the 2 s reload
+throttle is removed by clearing AddonManager.LAST_RELOAD and mtimes are set explicitly (no wall clock); a datagram before
+the edit, two after it and one after a second edit must each be forwarded exactly once with the script's hook invoked.
+
 Oracle (clause per sentence).  A boring reference model of the documented dispatch rules predicts which hooks run and
 whether the message is claimed; the wire is observed through the taps.
   at-most-once                  the original Message object reaches ``sendto`` <= 1 times
@@ -1067,6 +1072,149 @@ def _async_worker(chunk):
     return part.dump()
 
 
+# ---- hot-reload family: real addon files, AddonManager._reload_addons on the datagram path ---------------------------
+HR_VARIANTS = ("plain", "importer+dep-edited", "importer-edited", "importer+dep-both-edited")
+
+_DEP_SRC = "VALUE = {v}\n"
+_IMPORTER_SRC = """from hippolyzer.lib.proxy.addons import AddonManager
+import hmc_c07_dep
+{hot}
+import hmc.udpharness as U
+
+
+class FileAddon:
+    def handle_lludp_message(self, session, region, message):
+        U.HOOK_LOG.append(("file-addon", message.name, message.packet_id, hmc_c07_dep.VALUE))
+
+
+addons = [FileAddon()]
+"""
+
+
+def hotreload_case(variant: str, d: str, rel: int) -> Tuple[List[Dict[str, str]], Dict[str, Any]]:
+    """An addon *script* (optionally AddonManager.hot_reload()ing a dependency) is loaded through AddonManager.init, files
+    are edited on disk (mtime moved forward explicitly) while the session is up, the 2-second throttle is taken out by
+    clearing AddonManager.LAST_RELOAD (no sleeping, no wall clock), and datagrams are proxied: whatever the reload
+    machinery does, each is put on the wire exactly once, the script's hook sees it, nothing escapes."""
+    import importlib
+    import os
+    import shutil
+    import sys
+    import tempfile
+    from hippolyzer.lib.proxy.addons import AddonManager
+    tmp = tempfile.mkdtemp(prefix="hmc-c07-addons-")
+    dep_path, imp_path = os.path.join(tmp, "hmc_c07_dep.py"), os.path.join(tmp, "hmc_c07_importer.py")
+    viols: List[Dict[str, str]] = []
+    site0 = f"hotreload:{variant}"
+
+    def bad(clause, detail, site=None):
+        viols.append({"clause": clause, "site": site or site0, "detail": detail})
+
+    def write(path, text, mtime):
+        with open(path, "w") as f:
+            f.write(text)
+        os.utime(path, (mtime, mtime))
+
+    outcomes = []
+    try:
+        t0 = 1_600_000_000
+        write(dep_path, _DEP_SRC.format(v=1), t0)
+        write(imp_path, _IMPORTER_SRC.format(hot="" if variant == "plain" else "AddonManager.hot_reload(hmc_c07_dep)"), t0)
+        importlib.invalidate_caches()
+        del U.HOOK_LOG[:]
+        ctl = Ctl({})
+        w = U.fresh(1, [], neighbour=False)
+        AddonManager.init([imp_path], w.sm, [])
+        w.loop.run_ready()
+        if not any(getattr(m, "addons", None) for m in AddonManager.FRESH_ADDON_MODULES.values()):
+            raise RuntimeError("C07 hot-reload family: the addon script did not load")
+        sends, exc = w.deliver(0, U.socks_wrap(U.use_circuit_code(0, 1), U.SIMS[0]), U.VIEWERS[0])
+        if exc is not None or len(sends) != 1:
+            raise RuntimeError(f"C07 hot-reload setup: UseCircuitCode not forwarded ({sends!r}, {exc!r})")
+        region = w.region(0, 0)
+        w.sessions[0].main_region = region
+        proto = w.protos[0]
+        real_deser = proto.deserializer.deserialize
+
+        def deser_tap(data):
+            m = real_deser(data)
+            ctl.msgs.append((ctl.phase, m))
+            return m
+        proto.deserializer.deserialize = deser_tap
+        real_send = region.circuit._send_prepared_message
+
+        def send_tap(message, transport=None):
+            n0 = len(w.sends)
+            try:
+                return real_send(message, transport)
+            finally:
+                ctl.emissions.append((ctl.phase, message, len(w.sends) - n0))
+        region.circuit._send_prepared_message = send_tap
+        pids = {OUT: 2, IN: 1}
+
+        def proxied(phase):
+            ctl.phase = phase
+            AddonManager.LAST_RELOAD = None          # "more than two seconds since the last check"
+            pid = pids[d]
+            pids[d] += 1
+            lludp = _msg("ordinary", d, pid, 0x40 if rel else 0, ())
+            data, src = (U.socks_wrap(lludp, U.SIMS[0]), U.VIEWERS[0]) if d == OUT else (lludp, U.SIMS[0])
+            n_log = len(U.HOOK_LOG)
+            _, exc_ = w.deliver(0, data, src)
+            om = [m for ph, m in ctl.msgs if ph == phase]
+            o = om[0] if om else None
+            n_orig = sum(n for ph, m, n in ctl.emissions if m is o) if o is not None else 0
+            hooked = [e for e in U.HOOK_LOG[n_log:] if e[2] == pid]
+            outcomes.append((phase, n_orig, type(exc_).__name__ if exc_ else None, len(hooked), hooked[0][3] if hooked else None))
+            if exc_ is not None:
+                bad("exception-escaped", f"{phase}: {exc_!r} escaped datagram_received", site=f"{type(exc_).__name__}@{_first_repo_frame(exc_)}|{site0}")
+            if n_orig != 1:
+                bad("exactly-once-unless-claimed", f"{phase}: nobody claimed the message but it was emitted {n_orig} times (exception={exc_!r})")
+            if len(hooked) != 1:
+                bad("later-hooks-run", f"{phase}: the addon script's handle_lludp_message ran {len(hooked)} times for the message")
+
+        proxied("before-edit")
+        if variant in ("importer+dep-edited", "importer+dep-both-edited"):
+            write(dep_path, _DEP_SRC.format(v=2), t0 + 10)
+        if variant in ("importer-edited", "importer+dep-both-edited"):
+            write(imp_path, _IMPORTER_SRC.format(hot="AddonManager.hot_reload(hmc_c07_dep)") + "# edited\n", t0 + 10)
+        importlib.invalidate_caches()
+        proxied("first-after-edit")
+        proxied("second-after-edit")
+        if variant != "plain":
+            write(dep_path, _DEP_SRC.format(v=3), t0 + 20)
+            importlib.invalidate_caches()
+            proxied("after-second-edit")
+    finally:
+        for name in [n for n in sys.modules if n in ("hmc_c07_dep", "hippolyzer.user_addon_hmc_c07_importer")]:
+            sys.modules.pop(name, None)
+        while tmp in sys.path:
+            sys.path.remove(tmp)
+        real = os.path.realpath(tmp)
+        while real in sys.path:
+            sys.path.remove(real)
+        shutil.rmtree(tmp, ignore_errors=True)
+        U.reset_addon_manager()
+    return viols, {"outcomes": outcomes}
+
+
+def _hotreload_worker(chunk):
+    part = Part()
+    for case in chunk:
+        part.count("evaluations")
+        part.count("hotreload_cases")
+        viols, info = hotreload_case(*case)
+        part.outcome(("hotreload", case[0], tuple(info["outcomes"])))
+        part.mark_nontrivial(("hotreload", case))
+        seen = set()
+        for v in viols:
+            if v["clause"] in seen:
+                continue
+            seen.add(v["clause"])
+            part.violation(v["clause"], v["site"], {"kind": "hotreload", "case": list(case)}, v["detail"])
+    return part.dump()
+
+
 def _chunks(items, n):
     return [items[i:i + n] for i in range(0, len(items), n)]
 
@@ -1103,6 +1251,10 @@ def run(run: Run):
         run.merge(d)
     for d in pmap(_async_worker, _chunks(list(async_cases()), 16), run.jobs, chunksize=1):
         run.merge(d)
+    hr = [(v, d, rel) for v in HR_VARIANTS for d in (OUT, IN) for rel in (0, 1)]
+    for d in pmap(_hotreload_worker, _chunks(hr, 2), run.jobs, chunksize=1):
+        run.merge(d)
+    run.coverage_extra.update(hotreload_cases=int(run.counters.get("hotreload_cases", 0)))
     run.coverage_extra.update(async_cases=int(run.counters.get("async_cases", 0)), hook_cases=int(run.counters.get("hook_cases", 0)), machine_cases=int(run.counters.get("machine_cases", 0)),
                               messages=len(MESSAGES), fault_bound="singles+pairs" + ("+triples(one per addon)" if run.tier == "thorough" else ""))
     run.sample({"msg": ["command", OUT, 1], "assign": [["ss", 0, "take"]], "note": "single legal action + command channel"})
@@ -1116,6 +1268,8 @@ def replay(witness):
     if kind == "hooks":
         vs, info = execute(tuple(witness["msg"]), tuple(tuple(a) for a in witness["assign"]))
         return vs
+    if kind == "hotreload":
+        return hotreload_case(*witness["case"])[0]
     if kind == "async":
         c = list(witness["case"])
         return async_case(*c)[0]
